@@ -1,0 +1,54 @@
+//go:build verif
+
+// Contracts read by /verif/govc (comment-only; never compiled into the node).
+
+package statistics
+
+// C34, GP (13.5): the author's record gains exactly one block, the block's ticket count and preimage count; every
+// other record and every other counter of the author's record is untouched.
+//@ pred rec(s, i) = s.ValsCurr[int(i)]
+//@ pred only_author(s, a) = forall(j, 0, len(s.ValsCurr), j != int(a) ==> s.ValsCurr[j] == old(s.ValsCurr[j]))
+
+//@ func UpdateBlockStatistics
+//@   props C34
+//@   requires idx: statistics != nil && int(authorIndex) < len(statistics.ValsCurr)
+//@   ensures one: rec(statistics, authorIndex).Blocks == old(rec(statistics, authorIndex).Blocks) + 1
+//@   ensures rest: rec(statistics, authorIndex).Tickets == old(rec(statistics, authorIndex).Tickets) && rec(statistics, authorIndex).PreImages == old(rec(statistics, authorIndex).PreImages) && rec(statistics, authorIndex).PreImagesSize == old(rec(statistics, authorIndex).PreImagesSize) && rec(statistics, authorIndex).Guarantees == old(rec(statistics, authorIndex).Guarantees) && rec(statistics, authorIndex).Assurances == old(rec(statistics, authorIndex).Assurances)
+//@   ensures others: only_author(statistics, authorIndex)
+//@   assigns statistics.ValsCurr[*]
+
+//@ func UpdateTicketStatistics
+//@   props C34
+//@   requires idx: statistics != nil && int(authorIndex) < len(statistics.ValsCurr)
+//@   ensures tickets: rec(statistics, authorIndex).Tickets == old(rec(statistics, authorIndex).Tickets) + uint32(len(tickets))
+//@   ensures rest: rec(statistics, authorIndex).Blocks == old(rec(statistics, authorIndex).Blocks) && rec(statistics, authorIndex).PreImages == old(rec(statistics, authorIndex).PreImages) && rec(statistics, authorIndex).PreImagesSize == old(rec(statistics, authorIndex).PreImagesSize) && rec(statistics, authorIndex).Guarantees == old(rec(statistics, authorIndex).Guarantees) && rec(statistics, authorIndex).Assurances == old(rec(statistics, authorIndex).Assurances)
+//@   ensures others: only_author(statistics, authorIndex)
+//@   assigns statistics.ValsCurr[*]
+
+//@ func UpdatePreimageStatistics
+//@   props C34
+//@   requires idx: statistics != nil && int(authorIndex) < len(statistics.ValsCurr)
+//@   ensures preimages: rec(statistics, authorIndex).PreImages == old(rec(statistics, authorIndex).PreImages) + uint32(len(preimages))
+//@   ensures rest: rec(statistics, authorIndex).Blocks == old(rec(statistics, authorIndex).Blocks) && rec(statistics, authorIndex).Tickets == old(rec(statistics, authorIndex).Tickets) && rec(statistics, authorIndex).PreImagesSize == old(rec(statistics, authorIndex).PreImagesSize) && rec(statistics, authorIndex).Guarantees == old(rec(statistics, authorIndex).Guarantees) && rec(statistics, authorIndex).Assurances == old(rec(statistics, authorIndex).Assurances)
+//@   ensures others: only_author(statistics, authorIndex)
+//@   assigns statistics.ValsCurr[*]
+
+// each assurer gains one assurance; nothing else changes (the author index plays no role)
+//@ func UpdateAvailabilityStatistics
+//@   props C34
+//@   ghost v int
+//@   requires idx: statistics != nil && forall(k, 0, len(assurances), int(assurances[k].ValidatorIndex) < len(statistics.ValsCurr))
+//@   ensures counters: 0 <= v && v < len(statistics.ValsCurr) ==> statistics.ValsCurr[v].Blocks == old(statistics.ValsCurr[v].Blocks) && statistics.ValsCurr[v].Tickets == old(statistics.ValsCurr[v].Tickets) && statistics.ValsCurr[v].PreImages == old(statistics.ValsCurr[v].PreImages) && statistics.ValsCurr[v].PreImagesSize == old(statistics.ValsCurr[v].PreImagesSize) && statistics.ValsCurr[v].Guarantees == old(statistics.ValsCurr[v].Guarantees)
+//@   ensures absent: 0 <= v && v < len(statistics.ValsCurr) && forall(k, 0, len(assurances), int(assurances[k].ValidatorIndex) != v) ==> statistics.ValsCurr[v].Assurances == old(statistics.ValsCurr[v].Assurances)
+//@   assigns statistics.ValsCurr[*]
+//@   loop rangeindex#0
+//@     invariant range: rangeindex >= -1 && rangeindex < len(assurances) && statistics != nil && len(statistics.ValsCurr) == old(len(statistics.ValsCurr)) && sameblock(statistics.ValsCurr, old(statistics.ValsCurr))
+//@     invariant counters: 0 <= v && v < len(statistics.ValsCurr) ==> statistics.ValsCurr[v].Blocks == old(statistics.ValsCurr[v].Blocks) && statistics.ValsCurr[v].Tickets == old(statistics.ValsCurr[v].Tickets) && statistics.ValsCurr[v].PreImages == old(statistics.ValsCurr[v].PreImages) && statistics.ValsCurr[v].PreImagesSize == old(statistics.ValsCurr[v].PreImagesSize) && statistics.ValsCurr[v].Guarantees == old(statistics.ValsCurr[v].Guarantees)
+//@     invariant absent: 0 <= v && v < len(statistics.ValsCurr) && forall(k, 0, rangeindex+1, int(assurances[k].ValidatorIndex) != v) ==> statistics.ValsCurr[v].Assurances == old(statistics.ValsCurr[v].Assurances)
+//@     invariant frame: frame_only(elems(statistics.ValsCurr))
+
+// GP (13.10) D: data-availability load of a core
+//@ func CalculateDALoad
+//@   props C34
+//@   ensures absent: !has(WMap, coreIndex) ==> result == 0
+//@   ensures load: has(WMap, coreIndex) ==> result == WMap[coreIndex].PackageSpec.Length + 4104*((uint32(WMap[coreIndex].PackageSpec.ExportsCount)*65 + 63)/64)
